@@ -273,6 +273,8 @@ func slice(x, lo, hi, max value) value {
 	}
 	var Len, Cap int
 	switch x := x.(type) {
+	case symString:
+		Len = len(x)
 	case string:
 		Len = len(x)
 	case []value:
@@ -300,6 +302,8 @@ func slice(x, lo, hi, max value) value {
 	}
 
 	switch x := x.(type) {
+	case symString:
+		return normStr(x[l:h])
 	case string:
 		return x[l:h]
 	case []value:
@@ -339,6 +343,9 @@ func lookup(instr *ssa.Lookup, x, idx value) value {
 // numeric datatypes and strings.  Both operands must have identical
 // dynamic type.
 func binop(op token.Token, t types.Type, x, y value) value {
+	if isSymString(x) || isSymString(y) {
+		return symStringBinop(op, x, y)
+	}
 	if isSym(x) || isSym(y) {
 		return symBinop(op, t, x, y)
 	}
@@ -967,6 +974,10 @@ func callBuiltin(caller *frame, callpos token.Pos, fn *ssa.Builtin, args []value
 		if len(args) == 1 {
 			return args[0]
 		}
+		if ss, ok := args[1].(symString); ok {
+			arg0 := args[0].([]value)
+			return append(arg0, []value(ss)...)
+		}
 		if s, ok := args[1].(string); ok {
 			// append([]byte, ...string) []byte
 			arg0 := args[0].([]value)
@@ -980,6 +991,9 @@ func callBuiltin(caller *frame, callpos token.Pos, fn *ssa.Builtin, args []value
 
 	case "copy": // copy([]T, []T) int or copy([]byte, string) int
 		src := args[1]
+		if ss, ok := src.(symString); ok {
+			return copy(args[0].([]value), []value(ss))
+		}
 		if _, ok := src.(string); ok {
 			params := fn.Type().(*types.Signature).Params()
 			src = conv(params.At(0).Type(), params.At(1).Type(), src)
@@ -1030,6 +1044,8 @@ func callBuiltin(caller *frame, callpos token.Pos, fn *ssa.Builtin, args []value
 			return len(x)
 		case *hashmap:
 			return x.len()
+		case symString:
+			return len(x)
 		case symSlice:
 			return x.ln
 		case *mchan:
@@ -1126,6 +1142,8 @@ func rangeIter(i *interpreter, x value, t types.Type) iter {
 		return newSortedMapIter(i, x)
 	case *hashmap:
 		return newSortedHashmapIter(i, x)
+	case symString:
+		return &symStringIter{s: x}
 	case string:
 		return &stringIter{Reader: strings.NewReader(x)}
 	}
@@ -1220,11 +1238,7 @@ func conv(t_dst, t_src types.Type, x value) value {
 		switch ut_src.Elem().Underlying().(*types.Basic).Kind() {
 		case types.Byte:
 			x := x.([]value)
-			b := make([]byte, 0, len(x))
-			for i := range x {
-				b = append(b, x[i].(byte))
-			}
-			return string(b)
+			return normStr(append(symString{}, x...))
 
 		case types.Rune:
 			x := x.([]value)
@@ -1245,6 +1259,20 @@ func conv(t_dst, t_src types.Type, x value) value {
 			}
 		}
 
+		// string with symbolic bytes -> []byte or string
+		if ss, ok := x.(symString); ok {
+			switch ut_dst := ut_dst.(type) {
+			case *types.Slice:
+				if ut_dst.Elem().Underlying().(*types.Basic).Kind() == types.Byte {
+					return append([]value{}, ss...)
+				}
+			case *types.Basic:
+				if ut_dst.Kind() == types.String {
+					return ss
+				}
+			}
+			unsupported("conversion of a string with symbolic bytes to %v", t_dst)
+		}
 		// string -> []rune, []byte or string?
 		if s, ok := x.(string); ok {
 			switch ut_dst := ut_dst.(type) {
